@@ -95,6 +95,7 @@ type AutoSpec struct {
 	Claims  []string
 	Skip    []string
 	Inline  []string
+	Kind    string // inverse | decoders
 	File    string
 	Line    int
 }
@@ -309,10 +310,14 @@ func (cs *ContractSet) loadFile(path, pkg string) error {
 			// `auto inverse props C21 [claims ...]`: synthesize a thin contract for every function
 			// of this package that appends change pairs to a utils.History
 			fs := strings.Fields(rest)
-			if len(fs) < 1 || fs[0] != "inverse" {
-				return errf("auto inverse props Cxx")
+			if len(fs) < 1 || (fs[0] != "inverse" && fs[0] != "decoders") {
+				return errf("auto inverse|decoders props Cxx")
 			}
-			a := &AutoSpec{PkgPath: pkg, File: path, Line: l.line, Claims: []string{"inverse"}}
+			a := &AutoSpec{PkgPath: pkg, File: path, Line: l.line, Claims: []string{"inverse"}, Kind: fs[0]}
+			if fs[0] == "decoders" {
+				// thin safety contracts for every Deserialize* function of the package
+				a.Claims = []string{"nopanic", "alloc"}
+			}
 			mode := ""
 			for _, f := range fs[1:] {
 				switch f {
